@@ -89,7 +89,14 @@ def rule_hash_provenance(run):
             last = lhs["p"][-1] if lhs["p"] else None
             if isinstance(last, dict) and last.get("n") == "hash" and last.get("adt") == C.FRAME and bi in b.live_blocks():
                 n += 1
-                run.ob("%s|write(Frame.hash)" % run.facts.enclosing_fn(b), False, sp, "Frame.hash is written directly (not through the audited builder sites)", reason="hash-without-content")
+                # a direct write is judged like a builder setter: the value must come from a finished CAS commit (or be None)
+                labels = []
+                for o in q.origins(b.rvalue_expr(rv)):
+                    labels += classify_hash_origin(run, o)
+                bad = [l for l in labels if "bad:" in l or l.startswith("param")]
+                okw = bool(labels) and not bad and (any("commit:" in l for l in labels) or set(labels) == {"none"})
+                run.ob("%s|write(Frame.hash)" % run.facts.enclosing_fn(b), okw, sp,
+                       "Frame.hash written directly: the value originates only from a finished CAS commit or None: %s" % sorted(set(labels)), reason="hash-without-content")
     derived = set()
     for cr in run.facts.crates:
         for im in cr.impls:
